@@ -7,7 +7,6 @@ package internal_test
 
 import (
 	"fmt"
-	"os"
 	"sort"
 	"strings"
 	"sync/atomic"
@@ -20,15 +19,6 @@ import (
 	"github.com/gotid/god/lib/discov"
 	"github.com/gotid/god/lib/discov/internal"
 )
-
-// bin/check pins VERIF_KNOWN to /verif/known_findings.txt (which harness
-// builders must not edit); VERIF_KNOWN_C15 lets a private list be used so the
-// search can continue past an open finding.
-func init() {
-	if p := os.Getenv("VERIF_KNOWN_C15"); p != "" {
-		os.Setenv("VERIF_KNOWN", p)
-	}
-}
 
 var c15Prefixes = []string{"svc", "svc2"} // "svc2" shares the string prefix "svc": the delimiter must separate them
 
